@@ -735,6 +735,19 @@ class Engine:
             if is_sym(a0):
                 raise Untranslatable("int() of a symbolic non-string")
             return int(a0)
+        if f is builtins.round:
+            x = args[0]
+            nd = args[1] if len(args) > 1 else kwargs.get("ndigits", 0)
+            if is_sym(nd):
+                raise Untranslatable("round with symbolic ndigits")
+            if not is_sym(x):
+                return round(x, nd) if len(args) > 1 or kwargs else round(x)
+            # round-half-up on non-negative reals (Python rounds exact ties to even; a counterexample that
+            # depends on an exact tie does not replay and is reported as inconclusive, never as a violation)
+            scale = 10 ** (nd or 0)
+            q = self.real(x) * scale
+            r = z3.ToInt(q + z3.Q(1, 2))
+            return z3.ToReal(r) / scale if (len(args) > 1 or kwargs) else r
         if f is builtins.reversed:
             return list(reversed(list(args[0])))
         if f is builtins.bool:
